@@ -122,6 +122,10 @@ def run(chk):
         # R3: generated code
         bodies = {b.id[len(pre) + 2:]: b for b in p.all_bodies if b.id.startswith(pre + "::")}
         sl = bodies.get("struct_len")
+        if sl is None:
+            # the generated entry counter by its signature: the one function next to the Ident taking &Struct and giving usize
+            cand_sl = [b for k, b in bodies.items() if b.def_kind == "Fn" and b.j.get("arg_count") == 1 and (b.j["locals"][0].get("ty") or "") == "usize" and (b.j["locals"][1].get("ty") or "").replace(" ", "") == "&" + st["path"]]
+            sl = cand_sl[0] if len(cand_sl) == 1 else None
         ser = [b for k, b in bodies.items() if k.endswith("::serialize") and "Serialize for %s" % sid in b.path or (k.endswith("::serialize") and b.j.get("root_item", {}).get("impl", {}).get("self_adt") == st["path"])]
         vm = [b for k, b in bodies.items() if k.endswith("::visit_map") and "{closure" not in k]
         if not chk.require("R3 optionals", "R3|%s|generated" % sn, sl is not None and len(ser) == 1 and len(vm) == 1, sid, "generated struct_len/serialize/visit_map not found (%s, %d, %d)" % (sl is not None, len(ser), len(vm))):
@@ -193,8 +197,8 @@ def run(chk):
     chk.extra["members"] = n_members
 
     # shared helpers of the macro
-    sin = [b for b in p.all_bodies if b.path.endswith("serde_workaround::set_if_none")]
-    cis = [b for b in p.all_bodies if b.path.endswith("serde_workaround::check_is_already_set")]
+    sin = [b for b in p.all_bodies if b.path.endswith("serde_workaround::set_if_none")] or [b for b in [p.role_bodies.get("set_if_none")] if b is not None]
+    cis = [b for b in p.all_bodies if b.path.endswith("serde_workaround::check_is_already_set")] or [b for b in [p.role_bodies.get("check_is_already_set")] if b is not None]
     if chk.require("R5 macro contract", "R5|helpers", len(sin) == 1 and len(cis) == 1, "passkey_types::utils::serde_workaround", "set_if_none / check_is_already_set not found"):
         b = sin[0]
         chk.touched(b)
